@@ -31,6 +31,7 @@ def _shard_main(args):
     ctx = core.Ctx(prop, tier, seed, shard, nshards, budget, excluded)
     try:
         mod = load_check(prop)
+        ctx.redirect_shadow()
         mod.shard(ctx)
     except BaseException:
         ctx.rec.errors.append("shard %d: %s" % (shard, traceback.format_exc()))
@@ -45,6 +46,7 @@ def replay_case(prop: str, doc: dict, tier="quick"):
     mod = load_check(prop)
     ctx = core.Ctx(prop, tier, 0, 0, 1, 3600, replaying=True)
     try:
+        ctx.redirect_shadow()
         mod.replay(doc.get("sub"), doc["case"], ctx)
     except core.Violation as v:
         v.sub = doc.get("sub")
